@@ -458,7 +458,7 @@ def gen_routing(repo=None):
     out.append('].')
     out.append('')
     out.append('Definition array_routing : list aentry := [')
-    out.append(';\n'.join(array_entries(repo)))
+    out.append(';\n'.join(array_entries(repo) + forwarded_entries(repo)))
     out.append('].')
     out.append('')
     out.append(f'Definition n_methods_1d : Z := {count[False]}.')
@@ -554,6 +554,54 @@ def array_entries(repo):
                         entries.append(f'  {{| a_two_d := {_b(two_d)}; a_module := "{mod}"; a_fn := "{fn.name}"; '
                                        f'a_arg := "{par}"; a_events := [{"; ".join(ev)}] |}}')
     return entries
+
+
+FORWARD_EXPR = 'method_kws[key]'
+
+
+def forwarded_entries(repo):
+    """optimize_extended_range: every load of the per-point keyword arrays `method_kws[key]` (key in
+    ('weights', 'alpha')) must be the array argument of np.pad(...) whose result is stored back under the
+    same key (a length-changing-by-a-constant, non-broadcasting extension; the inner method then validates
+    the length).  Any other load (e.g. the right-hand side of a broadcasting slice assignment) is AUse."""
+    tree, _ = _parse('pybaselines/optimizers.py', repo)
+    out = []
+    for cnode in tree.body:
+        if not isinstance(cnode, ast.ClassDef):
+            continue
+        for fn in cnode.body:
+            if not (isinstance(fn, ast.FunctionDef) and fn.name == 'optimize_extended_range'):
+                continue
+            events = []
+            pads = set()
+            for node in ast.walk(fn):
+                if (isinstance(node, ast.Assign) and len(node.targets) == 1
+                        and ast.unparse(node.targets[0]) == FORWARD_EXPR and isinstance(node.value, ast.Call)
+                        and ast.unparse(node.value.func) == 'np.pad' and node.value.args
+                        and ast.unparse(node.value.args[0]) == FORWARD_EXPR):
+                    ok = True
+                    # constant fill, no other mention of the array in the remaining arguments
+                    rest = node.value.args[1:] + [kw.value for kw in node.value.keywords]
+                    if any(FORWARD_EXPR in ast.unparse(r) for r in rest):
+                        ok = False
+                    if len(node.value.args) < 3 or not (isinstance(node.value.args[2], ast.Constant)
+                                                        and node.value.args[2].value == 'constant'):
+                        ok = False
+                    if ok:
+                        pads.add(id(node.value.args[0]))
+            for node in ast.walk(fn):
+                if isinstance(node, ast.Subscript) and isinstance(node.ctx, ast.Load) \
+                        and ast.unparse(node) == FORWARD_EXPR:
+                    events.append((node.lineno, node.col_offset, 'APad' if id(node) in pads else 'AUse'))
+            # keys of the loop
+            keys_ok = any(isinstance(n, ast.For) and ast.unparse(n.target) == 'key'
+                          and ast.unparse(n.iter) == "('weights', 'alpha')" for n in ast.walk(fn))
+            ev = [e for _, _, e in sorted(events)]
+            if not keys_ok:
+                ev = ['AUse'] + ev
+            out.append(f'  {{| a_two_d := false; a_module := "optimizers"; a_fn := "optimize_extended_range"; '
+                       f'a_arg := "{FORWARD_EXPR}"; a_events := [{"; ".join(ev)}] |}}')
+    return out
 
 
 GENERATORS = {'GenRouting': gen_routing}
